@@ -521,9 +521,16 @@ func corpusC12() []FileDef {
 			Const{Name: "No", Val: "0", Cells: []Cell{cellOf(kb, "_Flag", "", 0, false), cellOf(kr, "_Letter", "", 'n', false)}},
 			Const{Name: "Yes", Val: "1", Cells: []Cell{cellOf(kb, "_", "", 0, true), cellOf(kr, "_", "", 'y', false)}}),
 	}})
+	// 6. two parsable traits with equal cells on one line: the Parse case lists the constant twice
+	o6 := defaultOpts()
+	o6.Parsable = []string{"Wa", "Wb"}
+	out = append(out, FileDef{Kind: "corpus", Opts: o6, Traits: true, Enums: []EnumDef{
+		traitEnum("E0", uByName("int"), 0, []TypeInfo{typeInfoOf(ki)},
+			Const{Name: "Ua", Val: "0", Cells: []Cell{cellOf(ki, "_Wa", "", 10, false), cellOf(ki, "_Wb", "", 10, false)}},
+			Const{Name: "Ub", Val: "1", Cells: []Cell{cellOf(ki, "_", "", 11, false), cellOf(ki, "_", "", 12, false)}}),
+	}})
 	return out
 }
-
 
 // tagParsable adds the shape tags that depend on which columns are declared parsable.
 func tagParsable(fd *FileDef) {
